@@ -959,6 +959,9 @@ dPresetMap(
     printf("** PresetMap() allocates " IFMT " reals to lusup[*]....\n", nextpos);
 #endif
 
+#ifdef SLU_MT_VERIF
+    SLU_MT_VERIF_EVENT(SLUV_PRESETMAP, -1, n, nextpos, 0, Glu);
+#endif
     free (marker);
     return nextpos;
 }
